@@ -41,6 +41,8 @@ type r2State struct {
 	// R17: the forms in which each function reports a cancelled wait
 	cancelForms map[string]map[string]token.Pos
 	cancelOrder []string
+	// R17: library functions whose error (obtained by handing them our context) a function returns
+	cancelDelegates map[string]map[string]bool
 }
 
 func (s *r2State) note(rule, construct string, pos token.Pos, bad bool, okDetail, badDetail string, p *core.Path) {
